@@ -97,7 +97,11 @@ class Engine(ExprMixin, CallMixin, StmtMixin, Core):
         for f_ in self.spec.folds:
             # fold axioms at the empty sequence (definitional)
             e_ = z3.Empty(f_.sort.z3())
-            st.assume(f_.f(e_) == 0 if f_.kind == "sum" else f_.f(e_))
+            st.assume(f_.f(e_) == f_.unit())
+        for nm_, rv_ in self.spec.rev.items():
+            for so_ in set(f_.sort for f_ in self.spec.folds) | set(t.params.values()) | set(t.locals.values()):
+                if getattr(so_, "name", None) == nm_:
+                    st.assume(rv_(z3.Empty(so_.z3())) == z3.Empty(so_.z3()))
         for g, so in self.spec.ghosts.items():
             st.ghost[g] = self.fresh(so, "g_" + g, st)
         if t.generator is not None:
@@ -181,8 +185,7 @@ class Engine(ExprMixin, CallMixin, StmtMixin, Core):
                     res = c
                 ctx = Ctx(self, o.st, old=self.entry_state, result=res)
                 line = self.func.end_lineno
-                for name, fn in _clauses(t.ensures):
-                    self.emit("ensures", line, o.st, fn(ctx), tag=name)
+                self.emit_group("ensures", line, o.st, [(name, fn(ctx)) for name, fn in _clauses(t.ensures)])
                 if "exit" not in covered:
                     covered.add("exit")
                     self.emit_cover("cover.exit", line, o.st)
@@ -211,6 +214,9 @@ class Engine(ExprMixin, CallMixin, StmtMixin, Core):
                     if t.raise_canary is not None and key in t.raise_canary:
                         self.emit("canary", line, o.st, t.raise_canary[key](ctx), tag=key)
         self.n_normal, self.n_raise = n_normal, n_raise
+        for ordn, (ok, dropped) in self.loop_heads.items():
+            if ok == 0 and dropped > 0:
+                raise EngineError("loop %d: the invariant is unsatisfiable at every loop head (contradictory invariant?)" % ordn)
         return self.obls
 
     def pick_clause(self, cls, raises, implicit=False):
@@ -234,20 +240,17 @@ class Engine(ExprMixin, CallMixin, StmtMixin, Core):
             return
         allowed = set(t.modifies)
         old = self.entry_state
+        parts = []
         me = st.env.get("self")
         if me is not None and isinstance(me.s, Obj):
-            self._frame_obj(st, old, me, "self", allowed, line)
+            self._frame_obj(st, old, me, "self", allowed, parts)
         for g, v in st.ghost.items():
             if "g." + g in allowed or g == "yielded":
                 continue
-            self.emit("frame", line, st, S.eq(v, old.ghost[g]), tag="g." + g)
-        for p, so in t.params.items():
-            if p in allowed or p not in old.env or p not in st.env:
-                continue
-            if isinstance(so, (Seq, SetS, MapS)):
-                pass  # rebinding a local is not a mutation of the caller's object: only in-place ops matter
+            parts.append(("g." + g, S.eq(v, old.ghost[g])))
+        self.emit_group("frame", line, st, parts)
 
-    def _frame_obj(self, st, old, ref, prefix, allowed, line, depth=0):
+    def _frame_obj(self, st, old, ref, prefix, allowed, parts, depth=0):
         decl = self.class_decl(ref.s.cls)
         if not decl or depth > 3:
             return
@@ -258,11 +261,11 @@ class Engine(ExprMixin, CallMixin, StmtMixin, Core):
             a, b = self.read_field(st, ref, f), self.read_field(old, ref, f)
             if isinstance(so, Obj):
                 if a.t != b.t:
-                    self.emit("frame", line, st, S.FALSE, tag=name)
+                    parts.append((name, S.FALSE))
                 else:
-                    self._frame_obj(st, old, a, name, allowed, line, depth + 1)
+                    self._frame_obj(st, old, a, name, allowed, parts, depth + 1)
             else:
-                self.emit("frame", line, st, S.eq(a, b), tag=name)
+                parts.append((name, S.eq(a, b)))
 
     def find_block(self, body, block):
         """Statement range [first..last] of the function body located by line-pattern anchors."""
